@@ -115,141 +115,188 @@ func checkC17(c *Check) {
 
 	// ---- R3 everything read during TCP sniffing is handed back
 	const r3 = "C17.R3 the stream is read only through io.ReadFull into the replay buffer and through the mirroring tee reader; successful returns hand back a prefix of the replay buffer or the tee's Buffer()"
-	stream := sniffTCP.Params[1]
-	// pre-family: MakeSlice results and appends/phis/prefix-slices of them
-	fam := map[ssa.Value]bool{}
-	for changed := true; changed; {
-		changed = false
-		allInstrs(sniffTCP, func(in ssa.Instruction) {
-			v, ok := in.(ssa.Value)
-			if !ok || fam[v] {
-				return
-			}
-			switch x := in.(type) {
-			case *ssa.MakeSlice:
-				fam[v] = true
-				changed = true
-			case *ssa.Slice:
-				// make([]byte, const) is lowered to `new [N]byte` + full slice
-				if al, ok := x.X.(*ssa.Alloc); ok && al.Comment == "makeslice" && (x.Low == nil || isConstInt(x.Low, 0)) {
+	nRead, nRet := 0, 0
+	var teeAlloc ssa.Value
+	var badRets []string
+	helperOK := map[*ssa.Function]bool{}
+	// analyse(fn, stream, seeds): fn is Sniffer.TCP, or a helper of its package that TCP hands the
+	// stream (and possibly the replay buffer read so far: seeds) to
+	var analyse func(fn *ssa.Function, stream ssa.Value, seeds []ssa.Value, depth int)
+	analyse = func(fn *ssa.Function, stream ssa.Value, seeds []ssa.Value, depth int) {
+		// pre-family: MakeSlice results and appends/phis/prefix-slices of them
+		fam := map[ssa.Value]bool{}
+		for _, sd := range seeds {
+			fam[sd] = true
+		}
+		for changed := true; changed; {
+			changed = false
+			allInstrs(fn, func(in ssa.Instruction) {
+				v, ok := in.(ssa.Value)
+				if !ok || fam[v] {
+					return
+				}
+				switch x := in.(type) {
+				case *ssa.MakeSlice:
 					fam[v] = true
 					changed = true
-				}
-			case *ssa.Call:
-				if isBuiltinCall(x, "append") && fam[x.Call.Args[0]] {
-					fam[v] = true
-					changed = true
-				}
-			case *ssa.Phi:
-				for _, e := range x.Edges {
-					if fam[e] {
+				case *ssa.Slice:
+					// make([]byte, const) is lowered to `new [N]byte` + full slice
+					if al, ok := x.X.(*ssa.Alloc); ok && al.Comment == "makeslice" && (x.Low == nil || isConstInt(x.Low, 0)) {
 						fam[v] = true
 						changed = true
 					}
+				case *ssa.Call:
+					if isBuiltinCall(x, "append") && fam[x.Call.Args[0]] {
+						fam[v] = true
+						changed = true
+					}
+				case *ssa.Phi:
+					for _, e := range x.Edges {
+						if fam[e] {
+							fam[v] = true
+							changed = true
+						}
+					}
 				}
+			})
+		}
+		isPrefixOfFam := func(v ssa.Value) bool {
+			if fam[v] {
+				return true
+			}
+			if s, ok := v.(*ssa.Slice); ok && fam[s.X] && (s.Low == nil || isConstInt(s.Low, 0)) {
+				return true
+			}
+			return false
+		}
+		isTailOfFam := func(v ssa.Value) bool {
+			if fam[v] {
+				return true
+			}
+			if s, ok := v.(*ssa.Slice); ok && fam[s.X] {
+				return true
+			}
+			return false
+		}
+		// uses of the stream
+		for _, ref := range *stream.Referrers() {
+			pos := p.InstrPos(ref)
+			switch x := ref.(type) {
+			case *ssa.DebugRef:
+			case *ssa.Store:
+				// into teeReader.Stream
+				if fa, ok := x.Addr.(*ssa.FieldAddr); ok && x.Val == ssa.Value(stream) {
+					if nn := namedOf(fa.X.Type()); nn != nil && nn.Obj().Name() == "teeReader" {
+						teeAlloc = fa.X
+						c.OK("C17.R3:stream-use:tee", r3, pos)
+						continue
+					}
+				}
+				c.Bad("C17.R3:stream-use:store", r3, pos, "stream stored somewhere other than the mirroring tee reader")
+			case *ssa.MakeInterface, *ssa.ChangeInterface:
+				// io.Reader for io.ReadFull only
+				for _, r2 := range *x.(ssa.Value).Referrers() {
+					call, ok := r2.(*ssa.Call)
+					if ok && calleeIs(call, "io", "ReadFull") && call.Call.Args[0] == x.(ssa.Value) {
+						nRead++
+						c.Req(isTailOfFam(call.Call.Args[1]), "C17.R3:readfull-into-replay-buffer", r3, p.InstrPos(call), "io.ReadFull reads from the stream into a buffer that is not part of the replay buffer")
+						continue
+					}
+					if _, isDbg := r2.(*ssa.DebugRef); isDbg {
+						continue
+					}
+					c.Bad("C17.R3:stream-use:reader", r3, p.InstrPos(r2), "stream handed to a reader that does not mirror what it consumes")
+				}
+			case ssa.CallInstruction:
+				if recv, ok := methodCallNamed(x, "SetReadDeadline"); ok && recv == ssa.Value(stream) {
+					continue
+				}
+				// handed on to a helper of the package, together with (a tail-free view of) the replay buffer
+				if cal := staticCallee(x); cal != nil && depth < 2 && p.IsRepoFn(cal) && len(cal.Blocks) > 0 && fnPkg(cal) == fnPkg(sniffTCP) {
+					var hs ssa.Value
+					var hseeds []ssa.Value
+					okArgs := true
+					for i, a := range x.Common().Args {
+						if i >= len(cal.Params) {
+							okArgs = false
+							break
+						}
+						if a == stream {
+							if hs != nil {
+								okArgs = false
+							}
+							hs = cal.Params[i]
+						} else if isBytesOrString(a.Type()) {
+							if isPrefixOfFam(a) {
+								hseeds = append(hseeds, cal.Params[i])
+							} else {
+								okArgs = false // bytes that are not the replay buffer so far
+							}
+						}
+					}
+					if okArgs && hs != nil {
+						if _, seen := helperOK[cal]; !seen {
+							helperOK[cal] = true
+							analyse(cal, hs, hseeds, depth+1)
+						}
+						continue
+					}
+				}
+				c.Bad("C17.R3:stream-use:call", r3, pos, "stream used by a call other than SetReadDeadline / io.ReadFull / the tee reader")
+			default:
+				c.Bad("C17.R3:stream-use:other", r3, pos, fmt.Sprintf("unexpected use of the stream (%T)", ref))
+			}
+		}
+		// the tee is the only thing the HTTP parser reads from: teeAlloc flows into LimitReader/bufio only as io.Reader (its Read mirrors)
+		// returns
+		allInstrs(fn, func(in ssa.Instruction) {
+			r, ok := in.(*ssa.Return)
+			if !ok {
+				return
+			}
+			res := retResults(r)
+			if len(res) != 2 {
+				return
+			}
+			if !isNilConst(res[1]) {
+				// error return (the server closes the stream), or the pair a helper returned, whose own
+				// returns are judged in its analysis
+				if tup, idx := tupleSource(res[0]); tup != nil && idx == 0 {
+					if call, ok := tup.(*ssa.Call); ok && !helperOK[staticCallee(call)] && staticCallee(call) != nil && p.IsRepoFn(staticCallee(call)) {
+						badRets = append(badRets, p.InstrPos(r))
+					}
+				}
+				return
+			}
+			nRet++
+			v := res[0]
+			good := isPrefixOfFam(v)
+			if call, ok := v.(*ssa.Call); ok && staticCallee(call) == teeBuf {
+				good = teeAlloc != nil && resolve(call.Call.Args[0]) == resolve(teeAlloc)
+			}
+			if ph, ok := v.(*ssa.Phi); ok {
+				good = true
+				for _, e := range ph.Edges {
+					if call, ok := e.(*ssa.Call); ok && staticCallee(call) == teeBuf {
+						continue
+					}
+					if !isPrefixOfFam(e) {
+						good = false
+					}
+				}
+			}
+			if !good {
+				badRets = append(badRets, p.InstrPos(r))
 			}
 		})
 	}
-	isPrefixOfFam := func(v ssa.Value) bool {
-		if fam[v] {
-			return true
-		}
-		if s, ok := v.(*ssa.Slice); ok && fam[s.X] && (s.Low == nil || isConstInt(s.Low, 0)) {
-			return true
-		}
-		return false
-	}
-	isTailOfFam := func(v ssa.Value) bool {
-		if fam[v] {
-			return true
-		}
-		if s, ok := v.(*ssa.Slice); ok && fam[s.X] {
-			return true
-		}
-		return false
-	}
-	// uses of the stream
-	nRead := 0
-	var teeAlloc ssa.Value
-	for _, ref := range *stream.Referrers() {
-		pos := p.InstrPos(ref)
-		switch x := ref.(type) {
-		case *ssa.DebugRef:
-		case *ssa.Store:
-			// into teeReader.Stream
-			if fa, ok := x.Addr.(*ssa.FieldAddr); ok && x.Val == ssa.Value(stream) {
-				if nn := namedOf(fa.X.Type()); nn != nil && nn.Obj().Name() == "teeReader" {
-					teeAlloc = fa.X
-					c.OK("C17.R3:stream-use:tee", r3, pos)
-					continue
-				}
-			}
-			c.Bad("C17.R3:stream-use:store", r3, pos, "stream stored somewhere other than the mirroring tee reader")
-		case *ssa.MakeInterface, *ssa.ChangeInterface:
-			// io.Reader for io.ReadFull only
-			for _, r2 := range *x.(ssa.Value).Referrers() {
-				call, ok := r2.(*ssa.Call)
-				if ok && calleeIs(call, "io", "ReadFull") && call.Call.Args[0] == x.(ssa.Value) {
-					nRead++
-					c.Req(isTailOfFam(call.Call.Args[1]), "C17.R3:readfull-into-replay-buffer", r3, p.InstrPos(call), "io.ReadFull reads from the stream into a buffer that is not part of the replay buffer")
-					continue
-				}
-				if _, isDbg := r2.(*ssa.DebugRef); isDbg {
-					continue
-				}
-				c.Bad("C17.R3:stream-use:reader", r3, p.InstrPos(r2), "stream handed to a reader that does not mirror what it consumes")
-			}
-		case ssa.CallInstruction:
-			if recv, ok := methodCallNamed(x, "SetReadDeadline"); ok && recv == ssa.Value(stream) {
-				continue
-			}
-			c.Bad("C17.R3:stream-use:call", r3, pos, "stream used by a call other than SetReadDeadline / io.ReadFull / the tee reader")
-		default:
-			c.Bad("C17.R3:stream-use:other", r3, pos, fmt.Sprintf("unexpected use of the stream (%T)", ref))
-		}
-	}
+	analyse(sniffTCP, sniffTCP.Params[1], nil, 0)
 	c.Floor("C17.R3:readfull", nRead, 3)
-	// the tee is the only thing the HTTP parser reads from: teeAlloc flows into LimitReader/bufio only as io.Reader (its Read mirrors)
-	// returns
-	nRet := 0
-	var badRets []string
-	allInstrs(sniffTCP, func(in ssa.Instruction) {
-		r, ok := in.(*ssa.Return)
-		if !ok {
-			return
-		}
-		res := retResults(r)
-		if len(res) != 2 {
-			return
-		}
-		if !isNilConst(res[1]) {
-			return // error return: the server closes the stream
-		}
-		nRet++
-		v := res[0]
-		good := isPrefixOfFam(v)
-		if call, ok := v.(*ssa.Call); ok && staticCallee(call) == teeBuf {
-			good = teeAlloc != nil && resolve(call.Call.Args[0]) == resolve(teeAlloc)
-		}
-		if ph, ok := v.(*ssa.Phi); ok {
-			good = true
-			for _, e := range ph.Edges {
-				if call, ok := e.(*ssa.Call); ok && staticCallee(call) == teeBuf {
-					continue
-				}
-				if !isPrefixOfFam(e) {
-					good = false
-				}
-			}
-		}
-		if !good {
-			badRets = append(badRets, p.InstrPos(r))
-		}
-	})
 	c.Req(len(badRets) == 0, "C17.R3:returns-hand-back-replay-buffer", r3, strings.Join(badRets, ","), "a successful return of Sniffer.TCP hands back something other than a prefix of the replay buffer / the tee's Buffer() (bytes already read would be lost or reordered)")
 	c.Floor("C17.R3:return", nRet, 5)
 	// deadline reset on every exit: a deferred SetReadDeadline dominates all returns after the first successful SetReadDeadline
 	{
+		stream := sniffTCP.Params[1]
 		hasDefer := false
 		allInstrs(sniffTCP, func(in ssa.Instruction) {
 			if d, ok := in.(*ssa.Defer); ok {
@@ -257,7 +304,7 @@ func checkC17(c *Check) {
 					hasDefer = true
 					// every ReadFull is dominated by the defer
 					allInstrs(sniffTCP, func(in2 ssa.Instruction) {
-						if call, ok := in2.(*ssa.Call); ok && calleeIs(call, "io", "ReadFull") {
+						if call, ok := in2.(*ssa.Call); ok && (calleeIs(call, "io", "ReadFull") || helperOK[staticCallee(call)]) {
 							if !dominates(d, call) {
 								hasDefer = false
 							}
@@ -490,4 +537,3 @@ func checkC17(c *Check) {
 	c.Floor("C17.R4:store", nStore, 3)
 	_ = strings.Join
 }
-
